@@ -6,10 +6,10 @@ CONSTANTS
   TDiscWait = 5
   TDiscResp = 10
   TCall = 10
-  Configs <- ConnectConfigs
-  MaxEnv = 7
-  MaxFaults = 2
-  Msgs <- ConnectMsgs
+  Configs <- AllConfigs
+  MaxEnv = 6
+  MaxFaults = 0
+  Msgs <- HelloMsgs6
   MaxChunk = 2
   UseCalls = FALSE
   UseSubs = FALSE
